@@ -16,7 +16,8 @@ MIN_OBLIGATIONS = 20
 EXPLANATION = ("Phase agreement: the real resolve_labels + emit are executed on [*=, X, label, marker] where X is ANY node, including one whose "
                "predicted size differs from what it emits (protocol model of width inference from a symbol that changes between passes): the label "
                "equals the run address of the next emitted byte or the assembly fails -- for every start address on the live buses, every size pair. "
-               "Size agreement within one environment is proved per node class (C01 opcode nodes, C07 data and binary nodes, C18 text nodes); label "
+               "Size agreement within one environment is proved per node class (C01: every mnemonic x mode x index x width cell of the live table, "
+               "`label_pass_size_is_emitted_size`; C05 branches; C07 data and binary nodes; C18 text nodes); label "
                "definition and named-scope export are under contract.  Whole programs (nesting, macros, loops, moves, bank crossings) are the bounded part.")
 TRUSTED = ["vf/specs/progmodel.py (TwoPhaseNode / MarkerNode protocol models)"]
 ASSUMPTIONS = ["the phase-agreement obligation is stated on a 4-node program shape with an arbitrary node X; that it extends to arbitrary node lists is the "
